@@ -28,6 +28,9 @@ use std::sync::{mpsc, Arc, Mutex};
 use std::time::{Duration, Instant};
 use vcommon::*;
 
+mod chainkv;
+mod extra;
+
 fn main() {
 	quiet_panics();
 	global::init_global_chain_type(global::ChainTypes::AutomatedTesting);
@@ -46,6 +49,12 @@ fn main() {
 		Some("squeeze") => squeeze(&args),
 		Some("bigbatch") => bigbatch(&args),
 		Some("reopen") => reopen(&args),
+		Some("pages") => extra::pages(&args),
+		Some("prodsize") => extra::prodsize(&args),
+		Some("crashresize") => extra::crashresize(&args),
+		Some("crashresize-child") => extra::crashresize_child(&args),
+		Some("chainreplay") => chainkv::chainreplay(&args),
+		Some("rewrite") => extra::rewrite(&args),
 		_ => {
 			eprintln!("kv replay|record|crash|race|gate|nested|inflight");
 			2
@@ -1879,8 +1888,21 @@ fn gate(args: &Args) -> i32 {
 	let map0 = map_region(&data_file).map(|m| m.1).unwrap_or(0);
 	// phase 2: small batches from a writer thread while THIS thread holds an open iterator, until a batch()
 	// call does not come back: it needs the enlargement, which has to wait for the iterator
+	let mut second: Option<Store> = None;
+	let mut second_opened = 0u64;
 	for it_no in 0..400u64 {
-		let held = match store.iter(Some(b'P'), deser_pair as DeserFn) {
+		// the reader works through a SECOND Store handle on the environment (as p2p's PeerStore next to the ChainStore): the
+		// gate's counters (EnvState.open_txs_count / resizing) are shared by all handles; the handle is opened afresh every
+		// 16th round and dropped with its iterator (Drop for Store: stores_count)
+		if second.is_none() || it_no % 16 == 0 {
+			second = None;
+			second = match extra::open_second(&dir) {
+				Ok(s) => Some(s),
+				Err(e) => return finish(json!({"reached": false, "class": "second_handle_error", "error": errs(e)})),
+			};
+			second_opened += 1;
+		}
+		let held = match second.as_ref().unwrap().iter(Some(b'P'), deser_pair as DeserFn) {
 			Ok(it) => it,
 			Err(e) => return finish(json!({"reached": false, "class": "iter_error", "error": errs(e)})),
 		};
@@ -1890,7 +1912,7 @@ fn gate(args: &Args) -> i32 {
 		let (res_tx, res_rx) = mpsc::channel::<Result<(), String>>();
 		let wstore = store.clone();
 		std::thread::spawn(move || {
-			let r = (|| -> Result<(), String> {
+			let r = catch_unwind(AssertUnwindSafe(|| -> Result<(), String> {
 				let _ = enter_tx.send(());
 				let mut b = wstore.batch().map_err(errs)?;
 				let _ = got_tx.send(());
@@ -1905,7 +1927,8 @@ fn gate(args: &Args) -> i32 {
 					}
 				}
 				b.commit().map_err(|e| format!("commit:{}", errs(e)))
-			})();
+			}))
+			.unwrap_or_else(|_| Err("panic:panic in code under test (writer thread)".to_string()));
 			let _ = res_tx.send(r);
 		});
 		if enter_rx.recv_timeout(Duration::from_secs(hang_s)).is_err() {
@@ -1992,7 +2015,7 @@ fn gate(args: &Args) -> i32 {
 				return finish(json!({"reached": true, "class": class, "error": error, "iterations": it_no, "small_batches": key - 1,
 					"pages_at_wait": pages_at_wait, "map_initial": map0, "map_at_wait": map_at_wait, "map_after_gate": map_after,
 					"map_final": map_region(&data_file).map(|m| m.1).unwrap_or(0), "pages_final": data_pages(&dir),
-					"big_bytes": big, "gate_wait_ms": waited_ms, "recognised_waiting_after_ms": wait_ms}));
+					"big_bytes": big, "second_handle_opened": second_opened, "gate_wait_ms": waited_ms, "recognised_waiting_after_ms": wait_ms}));
 			}
 		}
 	}
@@ -2365,7 +2388,7 @@ fn nested_worker(store: Arc<Store>, sup: Arc<Sup>, dir: &str, data_file: &str, s
 		if due && kind != K_PLAIN {
 			// the enlargement that was waiting for the iterator is carried out by a helper thread of the store
 			let t = Instant::now();
-			while map_region(data_file).map(|m| m.1).unwrap_or(0) == map_before && t.elapsed() < Duration::from_secs(5) {
+			while map_region(data_file).map(|m| m.1).unwrap_or(0) == map_before && t.elapsed() < Duration::from_secs(10) {
 				std::thread::sleep(Duration::from_millis(10));
 			}
 			due_rounds.push(json!({"round": round, "kind": kind_name(kind), "pending_seen": pending, "map_before": map_before,
@@ -2380,13 +2403,18 @@ fn nested_worker(store: Arc<Store>, sup: Arc<Sup>, dir: &str, data_file: &str, s
 		}
 	}
 	let exercised = due_rounds.len() >= 2 && due_rounds.iter().all(|d| d["pending_seen"] == true && d["map_after"].as_u64() > d["map_before"].as_u64());
+	// KV!ResizeGate / NeedsResize (measured by the LAST PAGE of the data file, as LMDB measures when it allocates): an
+	// enlargement was due, a batch() was called (by this thread under its iterator, or by another thread), every transaction
+	// has been closed since - and the map is what it was: the enlargement was never asked for
+	let not_enlarged = due_rounds.iter().find(|d| d["map_after"].as_u64() <= d["map_before"].as_u64() && d["pending_seen"] == false).cloned();
 	let commits = scn.commits;
 	let map_final = map_region(data_file).map(|m| m.1);
 	drop(store);
 	let trace = scn.finish_trace(dir)?;
 	Ok((
 		trace,
-		json!({"class": if exercised { "ok" } else { "not_exercised" }, "rounds": rounds, "commits": commits, "due_rounds": due_rounds,
+		json!({"class": if exercised { "ok" } else if not_enlarged.is_some() { "due_not_enlarged" } else { "not_exercised" },
+			"not_enlarged": not_enlarged, "rounds": rounds, "commits": commits, "due_rounds": due_rounds,
 			"order": [kind_name(order[0]), kind_name(order[1])], "map_final": map_final}),
 	))
 }
